@@ -22,18 +22,15 @@ Theorem C20_caught : forall e hs,
   caught e hs = true <-> exists h c, In h hs /\ In c h /\ subclass e c = true.
 Proof. exact caught_spec. Qed.
 
-(* Schema validation and deserialisation check of JSON and XML files: no exception class that any stage
-   can raise leaves the function (finite check over all sites of the translated functions, callees
+(* Schema validation and deserialisation check of JSON, XML and AASX files: no exception class that any
+   stage can raise leaves the function (finite check over all sites of the translated functions, callees
    included, fuel 4 not exhausted). *)
-Theorem C20_total_schema_deser : forall f,
-  In f ["json.check_schema"; "json.check_deserialization"; "xml.check_schema"; "xml.check_deserialization"] ->
-  escapes functions fuel f = EscOk [].
+Theorem C20_total_schema_deser : forall f, In f closed_functions -> escapes functions fuel f = EscOk [].
 Proof. exact total_schema_deser. Qed.
 
 (* Every public check function: the classes that can leave it are within [allowed_for] - nothing for the
-   four functions above, NotImplementedError (comparison of an unordered SubmodelElementList) for the
-   other JSON/XML functions, and IndexError / XMLSyntaxError / KeyError / NotImplementedError / TypeError /
-   BadZipFile / zlib.error / OSError for the AASX functions (known findings). *)
+   six functions above, and only NotImplementedError (AASDataChecker on a SubmodelElementList with
+   order_relevant=False; known finding) for the six functions that compare data. *)
 Theorem C20_total_partial : forall f, In f public_functions ->
   exists l, escapes functions fuel f = EscOk l /\ incl l (allowed_for f).
 Proof. exact total_partial. Qed.
@@ -47,26 +44,23 @@ Proof. exact total_refuted. Qed.
 Theorem C20_equiv_sound : forall attrs (a b : record), (forall x, a x = b x) -> compare_by attrs a b = true.
 Proof. exact compare_by_refl. Qed.
 
-(* The attributes of the metamodel classes (constructor parameters) that AASDataChecker never compares
-   are exactly these two. *)
-Theorem C20_missing_attributes :
-  flat_map (missing checker_methods) class_table =
-  [("Qualifier", "semantic_id"); ("Qualifier", "supplemental_semantic_id")].
-Proof. exact missing_is_known. Qed.
+(* No attribute of a metamodel class (constructor parameter) is left uncompared by AASDataChecker. *)
+Theorem C20_missing_attributes : flat_map (missing checker_methods) class_table = [].
+Proof. exact nothing_missing. Qed.
 
 (* Completeness: a successful comparison of two objects of a class means they agree on every attribute of
-   the class but the two above ... *)
-Theorem C20_equiv_complete_partial : forall cls m attrs (a b : record) x,
+   the class. *)
+Theorem C20_equiv_complete : forall cls m attrs (a b : record) x,
   In (cls, m, attrs) class_table -> compare_by (compared checker_methods 6 m) a b = true ->
-  In x attrs -> ~ In (cls, x) known_missing -> a x = b x.
-Proof. exact equiv_complete_partial. Qed.
+  In x attrs -> a x = b x.
+Proof. exact equiv_complete. Qed.
 
-(* ... and for those the full statement is refuted. *)
-Theorem C20_equiv_complete_refuted :
-  exists cls m attrs x (a b : record),
-    In (cls, m, attrs) class_table /\ In x attrs /\
-    compare_by (compared checker_methods 6 m) a b = true /\ a x <> b x.
-Proof. exact equiv_complete_refuted. Qed.
+(* ... and the comparison is not vacuous: two qualifiers differing only in semantic_id compare as different. *)
+Theorem C20_equiv_detects_example :
+  exists (a b : record),
+    compare_by (compared checker_methods 6 "_check_qualifier_equal") a b = false /\
+    (forall x, x <> "semantic_id" -> a x = b x).
+Proof. exact equiv_detects_example. Qed.
 
 (* Non-vacuity: the generated tables are populated. *)
 Theorem C20_tables_nonempty :
